@@ -322,9 +322,19 @@ func ExecHistory(p History, c *hx.Case) (st HStats, err error) {
 				r.c.Label("avoided:C06-remerge-of-tables-holding-foreign-keys")
 				n = oldN
 			}
-			// will the new operators receive tables with keys they do not own?
+			// will the new operators receive tables with keys they do not own? (a
+			// checkpoint whose state is in the write-ahead logs only hands every new
+			// operator just the entries it owns: the replay is filtered by ownership)
 			if n != oldN {
-				r.foreign = true
+				for _, f := range w.MemFS().List() {
+					if strings.HasSuffix(f, ".sst") {
+						r.foreign = true
+						break
+					}
+				}
+				if !r.foreign {
+					r.c.Label("count-change-without-tables")
+				}
 			}
 			for _, op := range r.ops {
 				op.Stop()
